@@ -543,6 +543,28 @@ pub fn run(o: &DetectOpts) -> serde_json::Value {
                         found.extend(check_c19_detect(&c.bytes, &c.settings, &e));
                     }
                 }
+                // the chaos threshold AT an observed chaos: with the threshold bit-equal to the chaos of a returned match (and one
+                // ulp either side) the strict bound chaos < threshold must still hold, in the code and in the model
+                if focus == "C04" && idx % 4 == 1 && c.bytes.len() <= 6000 && c.settings.steps >= 1 {
+                    if let Some(ch) = ms.iter().map(|m| m.chaos()).find(|x| *x > 0.0 && *x < 1.0) {
+                        for th in [ch, f32::from_bits(ch.to_bits() + 1), f32::from_bits(ch.to_bits() - 1)] {
+                            let mut s2 = c.settings.clone();
+                            s2.threshold = ordered_float::OrderedFloat(th);
+                            let r2 = run_real(&c.bytes, &s2);
+                            let l2 = outcome_lines(&r2);
+                            let m2 = drv.detect(&c.bytes, &s2);
+                            extra_runs += 1;
+                            if l2 != m2 && match_count(&l2) <= 20 {
+                                disagreements.push(json!({"index": idx, "what": "threshold set to an observed chaos", "case": case_json(&c.kind, &c.bytes, &s2), "real": l2, "model": m2}));
+                            }
+                            if let Outcome::Ok(ms2) = &r2 {
+                                for f in check_c04(&c.bytes, &s2, ms2) {
+                                    violations.push(json!({"prop": f.prop, "what": f.what, "known": f.known, "case": case_json(&c.kind, &c.bytes, &s2)}));
+                                }
+                            }
+                        }
+                    }
+                }
                 if focus == "C13" || !same || idx % 5 == 0 {
                     let alt = (rng.range(1, 9), c.bytes.len() / 2 + rng.below(c.bytes.len() + 2));
                     found.extend(check_c13_window(&c.bytes, &c.settings, &real_lines, alt));
